@@ -61,8 +61,9 @@ pub const NOUNSET_LEAVES: &[&str] = &[
     "true",
     "sv=$(t 7 1)",
     "echo \"s:$(t 8 1)\"",
-    "t 9 1 | t 10 0",
-    "t 11 0 | t 12 2",
+    // the reader drains the pipe first: whether a writer meets a closed pipe depends on timing (in bash too)
+    "t 9 1 | { cat >/dev/null; t 10 0; }",
+    "t 11 0 | { cat >/dev/null; t 12 2; }",
 ];
 
 const VARS: &str = "s=set; n=; declare du; ea=(); sa=(p q)\n";
